@@ -157,6 +157,33 @@ theorem created_partial_addr (ops : List Op) (hco : coherentFrom idIsAddr [] ops
     ∀ m ∈ run ops, ∀ r ∈ live m, firstSeen (run ops) r.rid = some r.created :=
   created_of_coherent idIsAddr lookupOk_of_idIsAddr ops hco
 
+/-- operations that never go through the Update arm's new fragments -/
+def noUpdateArm (op : Op) : Bool :=
+  match op with
+  | .update _ _ => false
+  | .upsert _ => false
+  | _ => true
+
+/-- CREATED-AT is correct for every history of create / append / overwrite / delete / compaction (any number of fragments,
+    any compaction plan): only the Update arm is defective -/
+theorem created_correct_without_update_arm (ops : List Op) (hno : ops.all noUpdateArm = true) :
+    ∀ m ∈ run ops, ∀ r ∈ live m, firstSeen (run ops) r.rid = some r.created := by
+  apply created_partial
+  have gen : ∀ (ops : List Op) (h : Hist), ops.all noUpdateArm = true → coherentFrom lookupOk h ops = true := by
+    intro ops
+    induction ops with
+    | nil => intro _ _; rfl
+    | cons op ops ih =>
+      intro h hall
+      simp only [List.all_cons, Bool.and_eq_true] at hall
+      simp only [coherentFrom, Bool.and_eq_true]
+      refine ⟨?_, ih _ hall.2⟩
+      cases h with
+      | nil => rfl
+      | cons m h =>
+        cases op <;> simp [noUpdateArm] at hall <;> simp [coherentAt, coherentStep, movesRows]
+  exact gen ops [] hno
+
 /-- the 3-step witness of the design spike: create 3 rows, append 3 rows, update the row with key 4 -/
 def witness : List Op :=
   [.create 10 2 [[some 1, some 10], [some 2, some 20], [some 3, some 30]],
